@@ -17,12 +17,16 @@ KF_WALK = "C17-walk-search-superset-of-path-definition"
 
 
 def registered_findings():
+    """ids of the `known` findings recorded for C17 (known_findings.d/C17.json and/or the merged
+    known_findings.json); a signature that is not registered is treated as a violation"""
     import json
     import os
-    p = os.path.join(C.VERIF, "known_findings.d", PID + ".json")
-    if not os.path.exists(p):
-        return set()
-    return set(f["id"] for f in json.load(open(p))["findings"] if f.get("status") == "known")
+    ids = set()
+    for p in (os.path.join(C.VERIF, "known_findings.d", PID + ".json"), os.path.join(C.VERIF, "known_findings.json")):
+        if os.path.exists(p):
+            ids |= set(f["id"] for f in json.load(open(p)).get("findings", [])
+                       if f.get("property") == PID and f.get("status") == "known")
+    return ids
 
 
 # ----------------------------------------------------------------------------- implementation side
@@ -231,7 +235,7 @@ def gen_cases(ctx):
     if tier == "thorough":
         for g in C.enum_graphs(4, C.PAG_STATES):
             yield {"g": g, "Q": all_queries(4), "src": "exh4"}
-        yield from rand_stream(rng, ((5, 6000, 4000), (6, 1500, 2000), (7, 100, 300)), 2000, fams, i0=11)
+        yield from rand_stream(rng, ((5, 4000, 3000), (6, 1000, 1500), (7, 100, 300)), 1500, fams, i0=11)
 
 
 # ----------------------------------------------------------------------------- judging
